@@ -91,6 +91,8 @@ def run(res, args):
         res.broken.append(gen.BLE_BROKEN)
     common.coq_make()
     common.standard_proof_cov(res, "C19", THEOREMS)
+    from lib import blehgen
+    blehgen.src_obligations(res)
     common.build_ocaml()
     lines = generate(res.tier, res.seed)
     cf = os.path.join(common.BUILD, "c19cases.txt")
